@@ -29,6 +29,10 @@ Definition le16 (n : N) : bytes := [n2b n; n2b (n / 256)].
 Definition le32 (n : N) : bytes :=
   [n2b n; n2b (n / 256); n2b (n / 65536); n2b (n / 16777216)].
 
+(** Big-endian 32-bit (the Kerberos TCP length prefix). *)
+Definition le32_be (n : N) : bytes :=
+  [n2b (n / 16777216); n2b (n / 65536); n2b (n / 256); n2b n].
+
 (** Reader semantics of [binary.Read(r, LittleEndian, &scalar)] on a
     [bytes.Reader]: when fewer bytes remain than the scalar needs, the scalar is
     left 0 and the reader is exhausted (io.ReadFull consumed what was there). *)
